@@ -4,11 +4,14 @@
  * contracts are applied): every loop is unwound, unwinding assertions prove the unwinding bounds sufficient.
  *
  * What is CONCRETE (enumerated by loops of the harness, so that the layout of the document and with it the control flow
- * of the parser stay concrete for symbolic execution - a symbolic layout made the formula explode: 7M variables for the
- * smallest shape): the element names, the number/form of the attributes, the text lengths, which elements the program
- * skips.  What is SYMBOLIC (decided by the SAT back end for every value at once): every text byte (any value but '<'),
- * every attribute name/value byte (any value that is not markup), the preamble content, whether a non-skipped element
- * is read as body or descended into.
+ * of the parser stay concrete for symbolic execution - with a symbolic layout every pointer of the parser becomes
+ * symbolic and the formula explodes: 7M variables / no answer in 20 min for the smallest shape): the element names, the
+ * number/form of the attributes, the text lengths, the program (per element: descend, read body or skip), max_depth.
+ * What is SYMBOLIC (decided by the SAT back end for every value at once): every text byte (any value but '<'), every
+ * attribute name/value byte (any value that is not markup), the preamble content.
+ * (A symbolic body-or-descend choice was tried: it works on the unchanged code, where both paths leave the parser in the
+ * same state, but a defect that makes the two paths diverge leaves a symbolic parser state and the run times out instead
+ * of reporting the violation.)
  *
  * The generator records, per element, where its name, attributes and body lie (the "generating tree").  The callback
  * compares what the parser reports with that tree at the moment of the report:
@@ -125,9 +128,8 @@ struct el {
     size_t name_at, name_len;
     size_t nattr, ak[ATTR_CAP], av[ATTR_CAP], avlen[ATTR_CAP];
     size_t body_at, body_end;
-    bool skip;              /* concrete part of the program */
-    bool body;              /* symbolic part: a non-skipped element is read as body, else descended into */
-    int act;                /* the resulting action (for expectations and canaries) */
+    bool skip, body;        /* the action as two flags (skip; else body or descend) */
+    int act;                /* the action of the program on this element (concrete) */
     bool reached;           /* every ancestor is descended into */
     int pos;                /* number of reached elements before this one in document order */
 };
@@ -171,13 +173,14 @@ static void put_text(int n) {
     }
 }
 /* kinds[k]: AK_PLAIN " k=fv", AK_QUOTED " k=\"f\"" */
-static void put_open(int i, int nm, int depth, int parent, bool skip, int nattr, const int *kinds) {
+static void put_open(int i, int nm, int depth, int parent, int action, int nattr, const int *kinds) {
+    bool skip = action == ACT_SKIP;
     struct el *e = &r_el[i];
     e->nm = nm;
     e->depth = depth;
     e->parent = parent;
     e->skip = skip;
-    e->body = nondet_bool();
+    e->body = action == ACT_BODY;
     e->act = skip ? ACT_SKIP : (e->body ? ACT_BODY : ACT_DESCEND);
     put('<');
     e->name_at = r_len;
@@ -270,7 +273,6 @@ static int visit(struct aws_xml_node *node, int depth) {
             }
         }
     }
-    /* two-way branch on ONE symbolic bit (a third, infeasible "neither" path would leave the parser state symbolic) */
     if (e->skip) {
         return AWS_OP_SUCCESS;
     }
@@ -350,9 +352,9 @@ static const int VARIANT[][2] = VARIANTS;
 #define N_VARIANT ((int)(sizeof(VARIANT) / sizeof(VARIANT[0])))
 
 #if VERIF_XML_SHAPE == 1 || VERIF_XML_SHAPE == 2
-static void generate_tree(const int *nm, int apat, int tpat, int skipmask) {
+static void generate_tree(const int *nm, int apat, int tpat, const int *action) {
     int kind[3][1] = {{apat % 3}, {apat / 3 % 3}, {apat / 9 % 3}};
-#    define OPEN(i, depth, parent) put_open(i, nm[i], depth, parent, (skipmask >> (i)) & 1, kind[i][0] != AK_NONE, kind[i])
+#    define OPEN(i, depth, parent) put_open(i, nm[i], depth, parent, action[i], kind[i][0] != AK_NONE, kind[i])
 #    define TEXT(s) put_text((tpat >> (s)) & 1)
     r_len = 0;
 #    if VERIF_XML_SHAPE == 1
@@ -369,13 +371,21 @@ static void generate_tree(const int *nm, int apat, int tpat, int skipmask) {
 #    endif
     finish_generation();
 }
-/* a skip mask is redundant when it skips an element below a skipped one (that element is never looked at) */
-static bool redundant(int skipmask) {
 #    if VERIF_XML_SHAPE == 1
-    return (skipmask & 1) && (skipmask & 6);
+static const int PARENT[3] = {-1, 0, 0};
 #    else
-    return ((skipmask & 1) && (skipmask & 6)) || ((skipmask & 2) && (skipmask & 4));
+static const int PARENT[3] = {-1, 0, 1};
 #    endif
+/* a program is redundant when it gives an element below a non-descended one anything but the canonical "descend" (that
+ * element is never looked at) */
+static bool redundant(const int *action) {
+    for (int i = 1; i < 3; ++i) {
+        bool looked_at = true;
+        for (int p = PARENT[i]; p >= 0; p = PARENT[p])
+            if (action[p] != ACT_DESCEND) looked_at = false;
+        if (!looked_at && action[i] != ACT_DESCEND) return true;
+    }
+    return false;
 }
 
 /* max_depth is concrete (a symbolic limit makes "limit exceeded" a path of every traversal for symex, and the merged
@@ -412,12 +422,13 @@ void h_accept(void) {
         for (nm[1] = NM1_LO; nm[1] <= NM1_HI; ++nm[1])
             for (nm[2] = 0; nm[2] < 3; ++nm[2])
                 for (int v = 0; v < N_VARIANT; ++v)
-                    for (int skipmask = 0; skipmask < 8; ++skipmask) {
-                        if (redundant(skipmask)) continue;
-                        generate_tree(nm, VARIANT[v][0], VARIANT[v][1], skipmask);
+                    for (int prog = 0; prog < 27; ++prog) {
+                        int action[3] = {prog % 3, prog / 3 % 3, prog / 9};
+                        if (redundant(action)) continue;
+                        generate_tree(nm, VARIANT[v][0], VARIANT[v][1], action);
                         accept_case(0);
-                        if (skipmask == 0) {
-                            generate_tree(nm, VARIANT[v][0], VARIANT[v][1], skipmask);
+                        if (prog == 0) { /* everything descended into */
+                            generate_tree(nm, VARIANT[v][0], VARIANT[v][1], action);
                             accept_case(MAXDEPTH + 2);
                             CANARY("accepted with the tightest depth limit");
                         }
@@ -430,42 +441,43 @@ static void reject_case(size_t max_depth) {
     __CPROVER_assert(rc == AWS_OP_ERR, "document without a closing tag / beyond the depth limit is rejected with an error");
     __CPROVER_assert(g_raise_count > 0 && g_last_error != 0, "an error code is registered");
 }
-/* programs of the rejection harness: everything read-or-descended (symbolic), or exactly the defective element skipped */
+/* The programs of the rejection harness are CONCRETE (after a defect the body and the descend path leave the parser in
+ * different states; merged, they would make the rest of the run symbolic): every ancestor of the defective element d is
+ * descended into, d itself is skipped / read / descended into (all three), the remaining elements take one action each that
+ * rotates with the names and d. */
 void h_reject(void) {
     GHOST_RESET_COMMON();
     r_check = false;
     int nm[3];
     for (nm[0] = NM0_LO; nm[0] <= NM0_HI; ++nm[0])
         for (nm[1] = NM1_LO; nm[1] <= NM1_HI; ++nm[1])
-            for (nm[2] = 0; nm[2] < 3; ++nm[2])
-                {
-                    int v = (nm[0] + nm[1] + nm[2]) % N_VARIANT; /* one layout variant per combination of names */
-                    /* (a) the closing tag of element d is missing; the program reaches element d */
-                    for (int d = 0; d < NUSED; ++d)
-                        for (int skip_d = 0; skip_d < 2; ++skip_d) {
-                            r_defect = DEFECT_NO_CLOSE;
-                            r_defect_el = d;
-                            generate_tree(nm, VARIANT[v][0], VARIANT[v][1], skip_d << d);
-                            if (r_el[d].reached) { /* symbolic: depends on body / descend of the ancestors */
-                                reject_case(0);
-                                if (d == 0) CANARY("root without closing tag rejected");
-                                if (d == NUSED - 1 && r_el[d].act == ACT_DESCEND) CANARY("last element without closing tag, descended into, rejected");
-                                if (d == NUSED - 1 && r_el[d].act == ACT_SKIP) CANARY("last element without closing tag, skipped, rejected");
-                            }
-                        }
-                    /* (b) max_depth = m: some reached element at depth >= m - 1 is descended into */
-                    for (size_t m = 1; m <= MAXDEPTH + 1; ++m) {
-                        r_defect = DEFECT_DEPTH;
-                        generate_tree(nm, VARIANT[v][0], VARIANT[v][1], 0);
-                        bool looked_at = false;
-                        for (int i = 0; i < NUSED; ++i)
-                            if (r_el[i].reached && r_el[i].act == ACT_DESCEND && (size_t)r_el[i].depth + 1 >= m) looked_at = true;
-                        if (looked_at) {
-                            reject_case(m);
-                            if (m == MAXDEPTH + 1) CANARY("depth limit exceeded at the innermost element rejected");
-                        }
+            for (nm[2] = 0; nm[2] < 3; ++nm[2]) {
+                int v = (nm[0] + nm[1] + nm[2]) % N_VARIANT; /* one layout variant per combination of names */
+                /* (a) the closing tag of element d is missing; the program reaches element d */
+                for (int d = 0; d < NUSED; ++d)
+                    for (int act_d = ACT_DESCEND; act_d <= ACT_SKIP; ++act_d) {
+                        int action[3];
+                        for (int i = 0; i < 3; ++i) action[i] = (nm[0] + nm[1] + nm[2] + d + i) % 3;
+                        for (int p = PARENT[d]; p >= 0; p = PARENT[p]) action[p] = ACT_DESCEND;
+                        action[d] = act_d;
+                        r_defect = DEFECT_NO_CLOSE;
+                        r_defect_el = d;
+                        generate_tree(nm, VARIANT[v][0], VARIANT[v][1], action);
+                        __CPROVER_assert(r_el[d].reached, "harness: the defective element is reached");
+                        reject_case(0);
+                        if (d == 0) CANARY("root without closing tag rejected");
+                        if (d == NUSED - 1 && act_d == ACT_DESCEND) CANARY("last element without closing tag, descended into, rejected");
+                        if (d == NUSED - 1 && act_d == ACT_SKIP) CANARY("last element without closing tag, skipped, rejected");
                     }
+                /* (b) max_depth = m, every element descended into: the traversal of the element at depth m - 1 is refused */
+                for (size_t m = 1; m <= MAXDEPTH + 1; ++m) {
+                    int action[3] = {ACT_DESCEND, ACT_DESCEND, ACT_DESCEND};
+                    r_defect = DEFECT_DEPTH;
+                    generate_tree(nm, VARIANT[v][0], VARIANT[v][1], action);
+                    reject_case(m);
+                    if (m == MAXDEPTH + 1) CANARY("depth limit exceeded at the innermost element rejected");
                 }
+            }
 }
 #endif
 
@@ -477,13 +489,11 @@ void h_attr_limit(void) {
     int kinds[ATTR_CAP] = {AK_PLAIN, AK_PLAIN, AK_PLAIN, AK_PLAIN, AK_PLAIN, AK_PLAIN, AK_PLAIN, AK_PLAIN, AK_PLAIN, AK_PLAIN, AK_PLAIN};
     for (int nm1 = 0; nm1 < 2; ++nm1)
         for (int n = 9; n <= 11; ++n)
-            for (int skip1 = 0; skip1 < 2; ++skip1) {
+            for (int act1 = ACT_DESCEND; act1 <= ACT_SKIP; ++act1) {
                 r_len = 0;
-                            put_open(0, 0, 0, -1, false, 0, kinds);
-                r_el[0].body = false;
-                r_el[0].act = ACT_DESCEND;
+                            put_open(0, 0, 0, -1, ACT_DESCEND, 0, kinds);
                 put_text(1);
-                put_open(1, nm1, 1, 0, skip1, n, kinds);
+                put_open(1, nm1, 1, 0, act1, n, kinds);
                 put_text(1);
                 put_close(1);
                 put_close(0);
@@ -515,13 +525,13 @@ void h_preamble(void) {
         for (int p2 = 0; p2 < 4; ++p2) {
             if (p1 == 0 && p2 != 0) continue; /* same documents as (p2, nothing) */
             for (int lead = 0; lead < 2; ++lead)
-                for (int nm0 = 0; nm0 < 3; ++nm0)
-                    for (int skip0 = 0; skip0 < 2; ++skip0) {
+                for (int nm0 = 0; nm0 < 2; ++nm0)
+                    for (int act0 = ACT_DESCEND; act0 <= ACT_SKIP; ++act0) {
                         r_len = 0;
                                             put_preamble_statement(p1);
                         put_preamble_statement(p2);
                         put_text(lead);
-                        put_open(0, nm0, 0, -1, skip0, (p1 + nm0) & 1, kinds);
+                        put_open(0, nm0, 0, -1, act0, (p1 + nm0) & 1, kinds);
                         put_text(1);
                         put_close(0);
                         finish_generation();
@@ -543,12 +553,12 @@ void h_attrs(void) {
     r_check = true;
     for (int n = 0; n <= 3; ++n)
         for (int q = 0; q < (1 << n); ++q)
-            for (int nm0 = 0; nm0 < 3; ++nm0)
-                for (int skip0 = 0; skip0 < 2; ++skip0) {
+            for (int nm0 = 0; nm0 < 2; ++nm0)
+                for (int act0 = ACT_DESCEND; act0 <= ACT_SKIP; ++act0) {
                         int t = (n + nm0) & 1; /* text empty or one byte */
                         int kinds[3] = {(q & 1) ? AK_QUOTED : AK_PLAIN, (q & 2) ? AK_QUOTED : AK_PLAIN, (q & 4) ? AK_QUOTED : AK_PLAIN};
                         r_len = 0;
-                                            put_open(0, nm0, 0, -1, skip0, n, kinds);
+                                            put_open(0, nm0, 0, -1, act0, n, kinds);
                         put_text(t);
                         put_close(0);
                         finish_generation();
